@@ -507,7 +507,11 @@ class Interp:
 
     def ev_ListComp(self, n):
         if len(n.generators) == 1 and not self.st.merge:
-            itv = self.ev(n.generators[0].iter)
+            g0 = n.generators[0]
+            itv = self.ev(g0.iter)
+            if isinstance(n.elt, ast.Name) and isinstance(g0.target, ast.Name) and n.elt.id == g0.target.id and not g0.ifs \
+                    and isinstance(itv, SV) and itv.kind == 'bytes':
+                return self.models.lookup_builtin(list)(self, [itv], {})      # [x for x in data] is list(data)
             if self.meta_items(itv) is None and self.reg.invariant_for(self.frames[-1].qual, 'comp%d' % self._comp_ordinal(n)) is not None:
                 return self._symbolic_comprehension(n, 'list')
         out = []
